@@ -305,6 +305,15 @@ def h_len(it, x):
 
 @handler(range)
 def h_range(it, *a):
+    if len(a) == 1 and is_sym(a[0]) and z3.is_int(a[0]):
+        # a symbolic count: fork on its value up to a small bound (beyond it the unit is undecided)
+        n = a[0]
+        if it.ctx.decide(n <= 0, "range-empty"):
+            return range(0)
+        for k in range(1, 9):
+            if it.ctx.decide(n == k, "range-count"):
+                return range(k)
+        raise Undecided("range() with a symbolic count above 8")
     if any(is_sym(x) for x in a):
         raise Undecided("range() with a symbolic bound and no loop contract")
     try:
